@@ -23,11 +23,13 @@ CHECKS = {
                      'graph, the Master conditions and the slave-after-Master order',
                 note='bounded: cluster size, ticks, deviations and faults as listed in the evidence; FIFO channels; atomic '
                      'handlers; OS threads, sockets and supervisord are replaced by the World harness'),
-    'C03': dict(engine='E1-cluster', category='model_checking', technique=E1, ref='DESIGN.md section 4, C03',
+    'C03': dict(engine='E1-cluster', category='model_checking', technique=E1 + ' + fair-closure bounded liveness (STOP strategy)',
+                ref='DESIGN.md section 4, C03',
                 text='automatic distribution and start / restart application requests are explored over tiny rules files with '
                      'every process behaviour (run, backoff, fatal, early exit, never answering, host lost) interleaved with '
                      'ticks and deliveries; every emitted start request is judged against ground-truth process states, the '
-                     'sender\'s earlier requests and the starting failure strategy',
+                     'sender\'s earlier requests and the starting failure strategy; a fair closure checks that an application whose '
+                     'required program failed under STOP ends stopped',
                 note='2-3 programs per application, 2 applications, N=2 (3 in the thorough tier), bounds in the evidence'),
     'C04': dict(engine='E1-cluster', category='model_checking', technique=E1, ref='DESIGN.md section 4, C04',
                 text='application / process starts are explored on 2-3 instances over 1-2 nodes (loads up to the cap, program '
@@ -59,9 +61,12 @@ CHECKS = {
                 note='accuracy judged only while the trace satisfies the premise of the statement; N<=3, inactivity_ticks in '
                      '{2,3}, bounds in the evidence'),
     'C16': dict(engine='E1-cluster', category='model_checking', technique=E1, ref='DESIGN.md section 4, C16',
-                text='all E1 membership explorations run with the internal-error monitor (CRIT record with traceback, non-RPCError '
-                     'exception from an XML-RPC method, exception escaping a proxy thread, un-marshallable result)',
-                note='bounded as the underlying explorations; the hostile-message product is part of the thorough tier'),
+                text='the E1 membership explorations (incl. slow handshakes and requests on the wire) and the job explorations of '
+                     'C10 with their worst-case closures run with the internal-error monitor (CRIT record with traceback, '
+                     'non-RPCError exception from an XML-RPC method, exception escaping a proxy thread, un-marshallable result); '
+                     'plus the hostile product (states of scripted real histories x forged messages / Supervisor-side events, RPC '
+                     'matrix with hostile parameters, heterogeneous instances)',
+                note='bounded as the underlying explorations'),
     'C08': dict(engine='E1-cluster', category='model_checking', technique=E1 + ' + fair-closure bounded liveness',
                 ref='DESIGN.md section 4, C08',
                 text='fault prefixes (crash, restart, isolate/rejoin, stall/resume) are explored in every Supvisors state within '
